@@ -249,7 +249,8 @@ pub open spec fn temp_letter(t: Type) -> char {
            sig_rewrites=[('R-decl', r'\b_handle\b', 'handle')],
            ensures=[('handle', 'r.spec_handle() == Some(handle)'), ('id', 'r.spec_id() == self.spec_id()'), ('content', 'self.same_content(&r)')]),
         Fn('generate_id', props=P, ret='r', decl_only=True, sig_rewrites=[('R-decl', r'\s*where\s*Self: Sized,', '')],
-           ensures=[('handle', 'r.spec_handle() == self.spec_handle()'), ('content', 'self.same_content(&r)')]),
+           ensures=[('handle', 'r.spec_handle() == self.spec_handle()'), ('content', 'self.same_content(&r)'),
+                    ('temp_ids', 'match idmap { Some(m) => final(m).resolve_temp_ids == m.resolve_temp_ids, None => true }')]),
         Fn('merge', props=P, ret='r', requires=[('same_id', 'other.spec_id() == old(self).spec_id()')], ensures=[('identity', 'final(self).spec_handle() == old(self).spec_handle() && final(self).spec_id() == old(self).spec_id()')]),
     ], verus_header='pub trait Storable: PartialEq + TypeInfo + Sized',
         extra='    type HandleType: Handle;\n' + STORABLE_GHOST)
@@ -433,6 +434,9 @@ def emit_storefor(u, P, with_builditem=False):
                       ('idmap', f'r is Ok && !{DUP} && !{GEN} ==> (final(self).view_idmap() is Some <==> {OLDM} is Some) && ({OLDM} is Some ==> final(self).view_idmap().unwrap() =~= (if T::spec_carries_id() && item.spec_id() is Some {{ {OLDM}.unwrap().insert(item.spec_id().unwrap(), r->Ok_0) }} else {{ {OLDM}.unwrap() }}))'),
                       ('content', f'r is Ok && !{DUP} ==> item.same_content(&final(self).view_store().last().unwrap())'),
                       ('dup_rest', f'{DUP} ==> final(self).view_rest() == old(self).view_rest()'),
+                      # when the callbacks cannot fail, a failed insert has touched nothing at all
+                      ('atomic_rest', f'r is Err && !old(self).view_config().merge && (forall|it: T| #![trigger Self::preinsert_ok(old(self).view_rest(), it)] #![trigger Self::inserted_ok(old(self).view_rest(), it)] Self::preinsert_ok(old(self).view_rest(), it) && Self::inserted_ok(old(self).view_rest(), it)) ==> final(self).view_rest() == old(self).view_rest()'),
+                      ('config', 'final(self).view_config() == old(self).view_config() && final(self).view_temp_ids() == old(self).view_temp_ids()'),
                       ('callback', f'r is Ok && !{DUP} ==> Self::inserted_post(final(self).view_store(), old(self).view_rest(), final(self).view_rest(), r->Ok_0, true)'),
                       ('wf', f'r is Ok && !{DUP} && !{GEN} && (!T::spec_carries_id() ==> item.spec_id() is None) && (item.spec_id() is Some ==> !is_temp_form::<T>(old(self).view_temp_ids(), item.spec_id().unwrap())) ==> idmap_wf(final(self).view_store(), final(self).view_idmap())'),
                   ]))
